@@ -13,6 +13,42 @@ func init() {
 	gldap.VReg("H_TD_C20_step", H_TD_C20_step)
 	gldap.VReg("H_TD_C20_seq", H_TD_C20_seq)
 	gldap.VReg("H_TD_C20_multichange", H_TD_C20_multichange)
+	gldap.VReg("H_TD_C20_anydn", H_TD_C20_anydn)
+}
+
+// entries are stored and found by their DN wherever it lies: below the user base, below
+// the group base or elsewhere. Add, add again, delete, delete again, add once more.
+func H_TD_C20_anydn() {
+	gldap.VSummarise("encodeInteger")
+	dns := []string{"cn=carol,ou=people,dc=example,dc=org", "cn=staff,ou=groups,dc=example,dc=org", "cn=printer,ou=devices,dc=example,dc=org", "cn=Staff,OU=Groups,DC=example,DC=org"}
+	dn := dns[gldap.VLen("dn", len(dns)-1)]
+	d := &Directory{t: vT{}, logger: hclog.NewNullLogger(), userDN: DefaultUserDN, groupDN: DefaultGroupDN}
+	if gldap.VBool("haveGroup") {
+		d.groups = append(d.groups, &gldap.Entry{DN: vGroupPool[0], Attributes: []*gldap.EntryAttribute{gldap.NewEntryAttribute("member", []string{vUserPool[0]})}})
+	}
+	if gldap.VBool("haveUser") {
+		d.users = append(d.users, &gldap.Entry{DN: vUserPool[0], Attributes: []*gldap.EntryAttribute{gldap.NewEntryAttribute("mail", []string{"a@b"})}})
+	}
+	nUsers := len(d.users)
+	add := func(want int, lbl string) {
+		x := gldap.VAddExchange(5, dn, []string{"sn"}, [][]string{{"x"}})
+		d.handleAdd(vT{})(x.W, x.Req)
+		rs := x.Responses()
+		gldap.VAssert(len(rs) == 1 && int(rs[0].Code) == want, lbl)
+	}
+	del := func(want int, lbl string) {
+		x := gldap.VDeleteExchange(6, dn)
+		d.handleDelete(vT{})(x.W, x.Req)
+		rs := x.Responses()
+		gldap.VAssert(len(rs) == 1 && int(rs[0].Code) == want, lbl)
+	}
+	add(gldap.ResultSuccess, "adding a new entry succeeds whatever base its DN lies below")
+	add(gldap.ResultEntryAlreadyExists, "adding it again fails with entryAlreadyExists")
+	del(gldap.ResultSuccess, "deleting the entry that was added succeeds")
+	gldap.VAssert(len(d.users) == nUsers && len(d.groups) <= 1, "the entry is gone from the store, nothing else is")
+	del(gldap.ResultNoSuchObject, "deleting it again returns noSuchObject")
+	add(gldap.ResultSuccess, "it can be added again after the delete")
+	gldap.VReach("anydn")
 }
 
 // DN pool: none is a substring of another.
